@@ -22,7 +22,8 @@ RULE = ("case = (generated program of the C01-C04/C08 families: function or DBC 
         "exactly as tests/test_for_integrators.py does gives the verdict (pre ok / post ok) of the real call; (c) the "
         "patched registration hook sees every created class exactly once. non-trivial = the member's contracts are "
         "inherited/merged, or it is a property/static/class method, with a falsy contract; distinct = hash(program, "
-        "ops, assignment).")
+        "ops, assignment). Plus the invariant matrix (inv_cells): 8 class shapes x check_on of two invariants x their truth "
+        "x {construction, method call, assignment}: cls.__invariants__ judged by hand vs. the real operation.")
 ASSUMPTIONS = ["invariant conditions are held true here so that the verdict of a call is decided by pre/postconditions",
                "contracts are identified through their description '#<id>'"]
 DECO_KW = dict(n_pre=(0, 3), n_post=(0, 3), n_snap=(0, 2), n_wraps=(0, 2), err_forms=("default", "instance", "class"))
@@ -255,6 +256,151 @@ def hook_check(ctx, case):
     ctx.count("hook_checked_programs")
 
 
+INV_SHAPES = ("init", "noinit", "noinit-sub", "tuple-sub", "namedtuple", "slots", "dataclass", "init-sub")
+CHECK_ONS = ("default", "CALL", "SETATTR", "ALL")
+
+
+def inv_cells(ctx):
+    """The class-invariant list judged by hand: every class shape x check_on of two invariants x their truth values x
+    {construction, public method call, attribute assignment}. By hand = walk cls.__invariants__ in order, keep those whose
+    check_on selects the event (all of them for a construction - C03), call .condition(self=...); the first falsy one is
+    the verdict. The real operation must agree (violated or not, and which invariant)."""
+    import collections
+    import dataclasses
+    import itertools
+
+    import icontract
+
+    E = icontract.InvariantCheckEvent
+
+    class Inv1(Exception):
+        pass
+
+    class Inv2(Exception):
+        pass
+
+    def build(shape, on1, on2, T):
+        def kw(on):
+            return {} if on == "default" else {"check_on": getattr(E, on)}
+
+        def c1(self):
+            return T[1]
+
+        def c2(self):
+            return T[2]
+
+        d1 = icontract.invariant(c1, "#1", error=Inv1, **kw(on1))
+        d2 = icontract.invariant(c2, "#2", error=Inv2, **kw(on2))
+
+        def deco(cls):
+            return d2(d1(cls))
+
+        if shape in ("init", "init-sub"):
+            class K(icontract.DBC):
+                def __init__(self):
+                    object.__setattr__(self, "x", 0)
+
+                def m(self):
+                    return 1
+            K = deco(K)
+            if shape == "init-sub":
+                class K(K):  # noqa
+                    pass
+        elif shape in ("noinit", "noinit-sub"):
+            class K(icontract.DBC):
+                x = 0
+
+                def m(self):
+                    return 1
+            K = deco(K)
+            if shape == "noinit-sub":
+                class K(K):  # noqa
+                    pass
+        elif shape == "tuple-sub":
+            class K(tuple):
+                def m(self):
+                    return 1
+            K = deco(K)
+        elif shape == "namedtuple":
+            class K(collections.namedtuple("B", "a")):
+                def m(self):
+                    return 1
+            K = deco(K)
+        elif shape == "slots":
+            class K:
+                __slots__ = ("x",)
+
+                def __init__(self):
+                    object.__setattr__(self, "x", 0)
+
+                def m(self):
+                    return 1
+            K = deco(K)
+        else:
+            @dataclasses.dataclass
+            class K:
+                x: int = 0
+
+                def m(self):
+                    return 1
+            K = deco(K)
+        return K
+
+    def by_hand(cls, event, T):
+        for inv in cls.__invariants__:
+            if event is not None and event not in inv.check_on:
+                continue
+            if not inv.condition(self=None):
+                return inv.description
+        return None
+
+    def real(fn):
+        try:
+            fn()
+        except Inv1:
+            return "#1"
+        except Inv2:
+            return "#2"
+        return None
+
+    for shape in INV_SHAPES:
+        for on1, on2 in itertools.product(CHECK_ONS, repeat=2):
+            T = {1: True, 2: True}
+            K = build(shape, on1, on2, T)
+            ids = [i.description for i in K.__invariants__]
+            if ids != ["#1", "#2"]:
+                ctx.fail("invariant-list|%s" % shape, {"inv_cell": [shape, on1, on2]},
+                         "%s: __invariants__ lists %r, the class declares ['#1', '#2']" % (shape, ids))
+                continue
+            args = ((1,),) if shape == "namedtuple" else ()
+            inst = K(*args)
+            for t1, t2 in itertools.product((True, False), repeat=2):
+                cell = {"inv_cell": [shape, on1, on2, t1, t2]}
+                for opname, event, fn in (("construct", None, lambda: K(*args)), ("call", E.CALL, lambda: inst.m()),
+                                          ("setattr", E.SETATTR, lambda: setattr(inst, "x", 5))):
+                    if opname == "setattr" and shape in ("tuple-sub", "namedtuple"):
+                        continue
+                    T[1], T[2] = t1, t2
+                    try:
+                        man = by_hand(K, event, T)
+                        got = real(fn)
+                    finally:
+                        T[1], T[2] = True, True
+                    ctx.case(["inv_cell", shape, on1, on2, t1, t2, opname], not (t1 and t2),
+                             sample=lambda: {"shape": shape, "check_on": [on1, on2], "truth": [t1, t2], "op": opname,
+                                             "by_hand": man, "real": got})
+                    ctx.count("inv_cells")
+                    if man != got:
+                        ctx.fail("invariant-verdict|%s|%s|by-hand:%s|real:%s" % (shape, opname, man, got), dict(cell, op=opname),
+                                 "class shape %s, invariants #1 (check_on=%s, %s) and #2 (check_on=%s, %s), %s: judging "
+                                 "cls.__invariants__ by hand gives %s, the real operation gives %s" % (
+                                     shape, on1, t1, on2, t2, opname, man or "no violation", got or "no violation"))
+
+
+def run_once(ctx, tier, seed):
+    inv_cells(ctx)
+
+
 def run(ctx, tier, seed, shard, nshards):
     from hypothesis import given
 
@@ -270,6 +416,11 @@ def run(ctx, tier, seed, shard, nshards):
 
 
 def replay(ctx, case):
+    if case.get("inv_cell"):
+        before = ctx.evaluations
+        inv_cells(ctx)  # the matrix is small; the failing cell is reported again with the same bucket
+        ctx.evaluations = before
+        return
     if case.get("hook"):
         return hook_check(ctx, case)
     case = dict(case)
